@@ -554,6 +554,44 @@ func genPlanOpt(seed uint64, prop string, cold bool) *Plan {
 						continue
 					}
 				}
+				// restatement: an object is parsed, then every metric that has a
+				// modified twin is restated in it (MAV := AV, ...), as a form
+				// pre-filled from the base metrics does
+				if r.chance(0.02) {
+					ver := []int{30, 31, 40}[r.intn(3)]
+					if c := usable(t, true, ver); len(c) > 0 {
+						ci := c[r.intn(len(c))]
+						v := genValid(r, ver)
+						nParse++
+						ops = append(ops, Op{K: kParse, V: ver, C: -1, D: ci, S: v})
+						vals := map[string]string{}
+						for _, part := range strings.Split(v, "/") {
+							if k := strings.IndexByte(part, ':'); k > 0 {
+								vals[part[:k]] = part[k+1:]
+							}
+						}
+						var twins []string
+						for _, m := range specs[ver].Metrics {
+							if specs[ver].metric("M"+m.Abv) != nil && vals[m.Abv] != "" {
+								twins = append(twins, m.Abv)
+							}
+						}
+						if r.chance(0.5) {
+							for i := len(twins) - 1; i > 0; i-- {
+								j := r.intn(i + 1)
+								twins[i], twins[j] = twins[j], twins[i]
+							}
+						}
+						for _, b := range twins {
+							ops = append(ops, Op{K: kSet, C: ci, D: -1, S: "M" + b, S2: vals[b]})
+						}
+						ops = append(ops, Op{K: r.pick([]string{kRTrip, kVector, kScore}), C: ci, D: -1})
+						if ops[len(ops)-1].K == kScore {
+							ops[len(ops)-1].S = r.pick(apis[ver].ScoreNames())
+						}
+						continue
+					}
+				}
 				if len(extraAPI) > 0 && r.chance(0.08) {
 					if op, ok := genExtraOp(r, p, func(ver int, mut bool) []int { return usable(t, mut, ver) }); ok {
 						ops = append(ops, op)
@@ -758,8 +796,8 @@ func genPlanOpt(seed uint64, prop string, cold bool) *Plan {
 		p.PoolDec = append(p.PoolDec, d)
 	}
 	p.Slab = r.chance(0.35)
+	p.AliasArgs = r.chance(0.25)
 	if prop == "C14" {
-		p.AliasArgs = r.chance(0.3)
 		for k := r.intn(4); k > 0; k-- {
 			ver := versions[r.intn(4)]
 			switch r.intn(3) {
@@ -1206,6 +1244,22 @@ func genExtraOp(r *rng, p *Plan, usable func(ver int, mut bool) []int) (Op, bool
 			default:
 				args = append(args, "nil")
 			}
+		case "vstrs":
+			// a few strings, spread: couples "metric:value", metrics, or vectors
+			fam := r.intn(3)
+			var el []string
+			for n := r.intn(5); n > 0; n-- {
+				switch fam {
+				case 0:
+					m := genMetric(r, fn.Ver, 0.1)
+					el = append(el, m+":"+genValue(r, fn.Ver, m, 0.15))
+				case 1:
+					el = append(el, genMetric(r, fn.Ver, 0.2))
+				default:
+					el = append(el, genVector(r, fn.Ver))
+				}
+			}
+			args = append(args, strings.Join(el, "\x1e"))
 		case "func":
 			args = append(args, []string{"noop", "noop", "nil"}[r.intn(3)]) // a callback that does nothing, or none
 		case "int":
@@ -1218,8 +1272,11 @@ func genExtraOp(r *rng, p *Plan, usable func(ver int, mut bool) []int) (Op, bool
 	}
 	op.S2 = strings.Join(args, "\x1f")
 	op.A = joinInts(objCells)
-	if r.chance(0.5) {
-		op.D = 1
+	switch r.intn(10) {
+	case 0, 1, 2:
+		op.D = 1 // the caller overwrites what it was handed
+	case 3, 4:
+		op.D = 2 // the caller reorders what it was handed
 	}
 	return op, true
 }
